@@ -1,45 +1,140 @@
 import Dnp3.Model.OutstationTrace
+import Dnp3.Proofs.OutstationC04
 /-!
 # C04 — OPERATE actuates only after its own matching, fresh, directly preceding SELECT
+
+Property theorems over the outstation session model for ALL states and histories, restated
+verbatim from `Dnp3.Proofs.OutstationC04` (definitions `isSbo`, `CurFrag`, `stepNow`,
+`SelectAllZero`, `rxAccept`, … live there).  The full trace statement is false of the code
+(known defect D9: a byte-identical repeat of ANY last non-READ request re-bases the select's
+frame id): `operate_needs_select_partial` + `operate_after_intervening_write_counterexample`.
 -/
 namespace Dnp3.Props.C04
-open Dnp3
+open Dnp3 Dnp3.Proofs.C04
 
-/-- `SelectState::match_operate` accepts exactly when the sequence number is the next one, the
-    transport frame id is the next one, the object octets are identical and the select is fresh -/
+/-- **C04.1** `matchOperate` accepts iff sequence, frame id, object bytes and age all match. -/
 theorem match_operate_iff (sel : Sel) (timeout now seq frameId : Nat) (objs : List Nat) :
     matchOperate sel timeout now seq frameId objs = none ↔
-      (seq = seq4Next sel.seq ∧ frameId = (sel.frameId + 1) % 4294967296 ∧ objs = sel.objects ∧
-        now - sel.time ≤ timeout) := by
-  unfold matchOperate
-  constructor
-  · intro h
-    split at h
-    · cases h
-    · split at h
-      · cases h
-      · split at h
-        · cases h
-        · split at h
-          · cases h
-          · rename_i h1 h2 h3 h4
-            refine ⟨?_, ?_, ?_, ?_⟩
-            · exact (Decidable.not_not.mp h1).symm
-            · exact (Decidable.not_not.mp h2).symm
-            · exact (Decidable.not_not.mp h3).symm
-            · omega
-  · rintro ⟨h1, h2, h3, h4⟩
-    subst h1 h2 h3
-    simp
-    omega
+      (seq = seq4Next sel.seq ∧ frameId = (sel.frameId + 1) % 2 ^ 32 ∧ objs = sel.objects ∧
+        now - sel.time ≤ timeout) :=
+  @Dnp3.Proofs.C04.match_operate_iff sel timeout now seq frameId objs
 
-/-- the status reported on a mismatch: NO_SELECT (2), or TIMEOUT (1) when only the age fails -/
+/-- the status of a rejected OPERATE: `1` (Timeout) exactly when only the age check fails,
+    `2` (NoSelect) when sequence, frame id or object bytes differ. -/
 theorem match_operate_status (sel : Sel) (timeout now seq frameId : Nat) (objs : List Nat) (st : Nat)
-    (h : matchOperate sel timeout now seq frameId objs = some st) : st = 2 ∨ st = 1 := by
-  unfold matchOperate at h
-  repeat' split at h
-  all_goals simp_all
+    (h : matchOperate sel timeout now seq frameId objs = some st) :
+    (st = 1 ∧ seq = seq4Next sel.seq ∧ frameId = (sel.frameId + 1) % 2 ^ 32 ∧ objs = sel.objects ∧
+        timeout < now - sel.time) ∨
+    (st = 2 ∧ ¬ (seq = seq4Next sel.seq ∧ frameId = (sel.frameId + 1) % 2 ^ 32 ∧ objs = sel.objects)) :=
+  @Dnp3.Proofs.C04.match_operate_status sel timeout now seq frameId objs st h
 
-example : matchOperate ⟨3, 7, 1000, [12, 1, 0x17, 0]⟩ 5000 4000 4 8 [12, 1, 0x17, 0] = none := by decide
+/-- **C04.2 (step level, every state)**: a select-before-operate actuation appears in the outputs of a
+    step only if the fragment the step works on parses as a unicast function-4 request with well-formed
+    objects, a SELECT is stored, and `matchOperate` accepts it (sequence, frame id, object bytes, age). -/
+theorem step_sbo_needs_match (env : OEnv) (s : OState) (i : OInput) (o : OOut)
+    (ho : o ∈ (Outstation.step env s i).2) (hsbo : isSbo o = true) :
+    ∃ f ctrl hs raw sel, CurFrag env s i f ∧ parseRequest f.data = .request ctrl 4 (.ok hs) raw ∧
+      f.broadcast = none ∧ s.select = some sel ∧
+      matchOperate sel s.cfg.stimeout (stepNow s i) ctrl.seq f.id raw = none :=
+  @Dnp3.Proofs.C04.step_sbo_needs_match env s i o ho hsbo
+
+/-- **C04.2 (rejection)**: an OPERATE that is not accepted actuates nothing: no callback of any kind is
+    emitted, `select` is untouched, and the reply is the echo computed by `ctlAll none st none`, i.e. by the
+    branch of the loop that calls no handler and writes `withStatus obj st` for every object, where
+    `st ∈ {1, 2}` is the verdict (`operateVerdict_status`). -/
+theorem operate_rejected (a : Acc) (seq fid : Nat) (hs : List ObjHdr) (raw : List Nat) (st : Nat)
+    (hall : hs.all isControlHdr = true) (hv : operateVerdict a.1 seq fid raw = some st) :
+    handleControls a 4 seq fid hs raw =
+      if (rejectRun a st hs).overflow then none else
+      some (({ a.1 with solBuf := writeAt a.1.solBuf 4 (rejectRun a st hs).out }, a.2),
+        some (singleResponse seq (if st = 4 then iin2ParamError else 0) (4 + (rejectRun a st hs).out.length))) :=
+  @Dnp3.Proofs.C04.operate_rejected a seq fid hs raw st hall hv
+
+/-- at the `handleNonRead` level: nothing is emitted and `select` is kept -/
+theorem operate_rejected_no_callbacks {a a' : Acc} {seq fid : Nat} {hs : List ObjHdr} {raw : List Nat}
+    {r : Option Resp} (h : handleNonRead a 4 seq fid hs raw = some (a', r))
+    (hno : ¬ OperateOk a.1 seq fid raw) : a'.2 = a.2 ∧ a'.1.select = a.1.select :=
+  @Dnp3.Proofs.C04.operate_rejected_no_callbacks a a' seq fid hs raw r h hno
+
+/-- **C04.3 (where `select` comes from, every state)**: after a step `select` is unchanged, or
+    (c) cleared by `.cut`, or the fragment the step works on was a unicast request with well-formed objects and
+    (a) function 3 that was new (not a repeat), every handler status was 0 and the echo fitted:
+        `select = ⟨seq, frame id, now, raw objects⟩`; or
+    (b) it took the `repeatNonRead` branch — ANY non-READ function whose sequence number and bytes equal the
+        last recorded request (defect D9) — and only `frameId` was overwritten with this fragment's id. -/
+theorem step_select_change (env : OEnv) (s : OState) (i : OInput) :
+    (Outstation.step env s i).1.select = s.select ∨
+    (isCut i = true ∧ (Outstation.step env s i).1.select = none) ∨
+    ∃ f ctrl func hs raw, CurFrag env s i f ∧ parseRequest f.data = .request ctrl func (.ok hs) raw ∧
+      f.broadcast = none ∧ func ≠ 0 ∧ func ≠ 1 ∧
+      ((func = 3 ∧
+          (s.deferred = none → ¬ isCut i = true →
+            ¬ ∃ last, s.lastReq = some last ∧ last.seq = ctrl.seq ∧ last.frag = f.data) ∧
+          (Outstation.step env s i).1.select = some ⟨ctrl.seq, f.id, stepNow s i, raw⟩ ∧
+          SelectAllZero (Outstation.step env s i).2) ∨
+       ((s.deferred = none → ¬ isCut i = true →
+            ∃ last, s.lastReq = some last ∧ last.seq = ctrl.seq ∧ last.frag = f.data) ∧
+          ∃ sel, s.select = some sel ∧
+            (Outstation.step env s i).1.select = some { sel with frameId := f.id })) :=
+  @Dnp3.Proofs.C04.step_select_change env s i
+
+/-- **C04.4**: the transport frame counter increases by exactly 1 (mod 2^32) for every delivered fragment
+    and is unchanged by every other input (including `.cut` and rejected `.rx`). -/
+theorem step_frameId (env : OEnv) (s : OState) (i : OInput) :
+    (Outstation.step env s i).1.frameId =
+      match i with
+      | .rx src dst data =>
+        if (rxAccept env s src dst data).isSome then (s.frameId + 1) % 2 ^ 32 else s.frameId
+      | _ => s.frameId :=
+  @Dnp3.Proofs.C04.step_frameId env s i
+
+/-- the state after construction has no SELECT stored -/
+theorem start_select (cfg : OCfg) (evMax : Nat) : (Outstation.start cfg evMax).1.select = none :=
+  @Dnp3.Proofs.C04.start_select cfg evMax
+
+/-- **C04.5 (`operate_needs_select_partial`)**: along EVERY input list, from any state without a stored
+    SELECT (in particular `Outstation.start`), a select-before-operate actuation at step `k` implies a step
+    `j < k` that handled a unicast, well-formed, new function-3 request whose handler statuses were all 0,
+    with byte-identical raw objects and sequence number one less (mod 16), no effective `.cut` in between,
+    and the clock advanced by at most `stimeout` between the two requests.
+
+    MISSING relative to the full statement (kept below): the constraint on the fragments delivered strictly
+    between `j` and `k`.  What the model guarantees there (by `step_select_change` (b) and `step_frameId`) is
+    only `f_k.id = (sel.frameId + 1) mod 2^32` where `sel.frameId` is the id of the SELECT fragment OR of the
+    last fragment that took the `repeatNonRead` branch — see `operate_after_intervening_write_counterexample`
+    (defect D9), which refutes the full statement. -/
+theorem operate_needs_select_partial (env : OEnv) (s0 : OState) (h0 : s0.select = none) (inputs : List OInput)
+    (k : Nat) (hk : k < inputs.length) (o : OOut) (ho : o ∈ outsAt env s0 inputs k hk) (hsbo : isSbo o = true) :
+    ∃ (j : Nat) (hj : j < inputs.length), j < k ∧ ∃ fj cj hsj fk ck hsk raw,
+      CurFrag env (stateAt env s0 inputs j) inputs[j] fj ∧
+      parseRequest fj.data = .request cj 3 (.ok hsj) raw ∧ fj.broadcast = none ∧
+      SelectAllZero (outsAt env s0 inputs j hj) ∧
+      CurFrag env (stateAt env s0 inputs k) inputs[k] fk ∧
+      parseRequest fk.data = .request ck 4 (.ok hsk) raw ∧ fk.broadcast = none ∧
+      ck.seq = seq4Next cj.seq ∧
+      stepNow (stateAt env s0 inputs k) inputs[k] - stepNow (stateAt env s0 inputs j) inputs[j] ≤
+        s0.cfg.stimeout ∧
+      ∀ (m : Nat) (hm : m < inputs.length), j < m → m < k → isCut inputs[m] = true →
+        isDead (stateAt env s0 inputs m) = true :=
+  @Dnp3.Proofs.C04.operate_needs_select_partial env s0 h0 inputs k hk o ho hsbo
+
+/-- `operate_needs_select_partial` applies to every run from the state after construction
+    (`start_select`); stated here for the first conjuncts only, the full conclusion is obtained by
+    `operate_needs_select_partial env _ (start_select cfg evMax) …` -/
+theorem operate_needs_select_partial_start (env : OEnv) (cfg : OCfg) (evMax : Nat) (inputs : List OInput)
+    (k : Nat) (hk : k < inputs.length) (o : OOut)
+    (ho : o ∈ outsAt env (Outstation.start cfg evMax).1 inputs k hk) (hsbo : isSbo o = true) :
+    ∃ (j : Nat) (hj : j < inputs.length), j < k ∧ ∃ fj cj hsj raw,
+      CurFrag env (stateAt env (Outstation.start cfg evMax).1 inputs j) inputs[j] fj ∧
+      parseRequest fj.data = .request cj 3 (.ok hsj) raw ∧
+      SelectAllZero (outsAt env (Outstation.start cfg evMax).1 inputs j hj) :=
+  @Dnp3.Proofs.C04.operate_needs_select_partial_start env cfg evMax inputs k hk o ho hsbo
+
+/-- **D9**: an OPERATE is executed although a WRITE (and its retransmission) was received between the SELECT
+    and the OPERATE: the retransmitted WRITE takes the `repeatNonRead` branch, which re-bases the stored
+    SELECT's frame id, so the OPERATE "directly follows". -/
+theorem operate_after_intervening_write_counterexample :
+    sboCount (Outstation.run {} (Outstation.start {} 10).1 cexInputs).2 = 1 :=
+  @Dnp3.Proofs.C04.operate_after_intervening_write_counterexample 
 
 end Dnp3.Props.C04
